@@ -23,7 +23,7 @@ def confirm(d, n, wt):
     rcb, outb = sh("go build ./... && go vet ./... 2>&1 | tail -3", cwd=wt)
     rc1, out1 = sh(run, cwd=wt)
     os.remove(dst)
-    rcs, outs = sh("go test -count=1 ./... 2>&1 | tail -15", cwd=wt, timeout=3000)
+    rcs, outs = sh("go test -count=1 -timeout 90m ./... 2>&1 | tail -15", cwd=wt, timeout=6000)
     suite_ok = "FAIL" not in outs and rcs == 0
     sh("git checkout -q -- . && git clean -fdq", cwd=wt)
     return {"ok": rc0 == 0 and rc1 != 0 and suite_ok and rcb == 0, "demo_passes_without": rc0 == 0, "demo_fails_with": rc1 != 0, "builds": rcb == 0, "suite_passes_with": suite_ok,
